@@ -160,6 +160,77 @@ func H_C13_MultiplyTamper() {
 	vsym.Reach("multiply-tamper-checked")
 }
 
+// H_C13_AdditiveShape: the receiver side of the additive OT and of the multiplication on a sender message of the wrong
+// SHAPE (too few pads, one pad one byte shorter or longer at an arbitrary position, a nil pad, too few check values, a nil
+// check value): Round2 returns an error — or, for the well-formed shape, a result — and never panics. The receiver's state
+// is constructed directly (5 choice bytes = 40 transfers) so that only Round2's own handling of the message is exercised.
+func H_C13_AdditiveShape() {
+	group := curve.Secp256k1{}
+	nb := 5
+	batch := 8 * nb
+	choices := make([]byte, nb)
+	for i := range choices {
+		choices[i] = byte(0x5a + i)
+	}
+	mkRecv := func() *AdditiveOTReceiver {
+		res := &ExtendedOTReceiveResult{_VChoices: make([][params.OTBytes]byte, batch)}
+		return &AdditiveOTReceiver{ctxHash: hash.New(), group: group, choices: choices, result: res}
+	}
+	pad, _ := group.NewScalar().SetNat(new(saferith.Nat).SetUint64(9)).MarshalBinary()
+	mkMsg := func() *AdditiveOTSendRound1Message {
+		m := &AdditiveOTSendRound1Message{CombinedPads: make([][2][]byte, batch)}
+		for i := range m.CombinedPads {
+			m.CombinedPads[i][0], m.CombinedPads[i][1] = append([]byte{}, pad...), append([]byte{}, pad...)
+		}
+		return m
+	}
+	level := vsym.Choose("level", 2)
+	shape := vsym.Choose("shape", 6)
+	pos := vsym.Choose("position", batch)
+	side := vsym.Choose("side", 2)
+	msg := mkMsg()
+	switch shape {
+	case 1:
+		msg.CombinedPads = msg.CombinedPads[:pos]
+	case 2:
+		msg.CombinedPads[pos][side] = msg.CombinedPads[pos][side][:31]
+	case 3:
+		msg.CombinedPads[pos][side] = append(msg.CombinedPads[pos][side], 0)
+	case 4:
+		msg.CombinedPads[pos][side] = nil
+	case 5:
+		msg.CombinedPads = nil
+	}
+	var err error
+	panicked := vsym.ExpectPanic(func() {
+		if level == 0 {
+			_, err = mkRecv().Round2(msg)
+		} else {
+			gadget := make([]curve.Scalar, batch)
+			rcheck := make([]curve.Scalar, batch)
+			for i := range gadget {
+				gadget[i], rcheck[i] = group.NewScalar(), group.NewScalar()
+			}
+			mr := &MultiplyReceiver{ctxHash: hash.New(), group: group, beta: group.NewScalar(), gadget: gadget, choices: choices, receiver: mkRecv()}
+			out := &MultiplySendRound1Message{Msg: msg, RCheck: rcheck, UCheck: group.NewScalar()}
+			switch vsym.Choose("checks", 4) {
+			case 1:
+				out.RCheck = out.RCheck[:pos]
+			case 2:
+				out.RCheck[pos] = nil
+			case 3:
+				out.UCheck = nil
+			}
+			_, err = mr.Round2(out)
+		}
+	})
+	vsym.Assert(!panicked, "a sender message of the wrong shape never crashes the receiver")
+	if shape != 0 {
+		vsym.Assert(panicked || err != nil, "a sender message of the wrong shape is refused")
+	}
+	vsym.Reach("additive-shape-checked")
+}
+
 // H_C13_FieldOps: eq is equality and shl1 is a one-bit left shift of the 256-bit little-endian value.
 func H_C13_FieldOps() {
 	var a, b fieldElement
